@@ -56,6 +56,7 @@ type BackSpec struct {
 	InitW    int      `json:"init_w"`
 	Resolver string   `json:"resolver,omitempty"`
 	BGHeader string   `json:"bg_header,omitempty"`
+	ModeTCP  bool     `json:"mode_tcp,omitempty"` // backend of ssl-passthrough hosts
 	Balance  string   `json:"balance,omitempty"`
 	Mut      string   `json:"mut,omitempty"` // name of another Backend field to alter (reflection), see Mutate
 	Acquire  bool     `json:"acquire,omitempty"`
@@ -72,6 +73,15 @@ type HostSpec struct {
 	Content string `json:"content,omitempty"` // certificate body (identifies the version)
 	Extra   string `json:"extra,omitempty"`   // RootRedirect: a change outside the certificate
 	Mut     string `json:"mut,omitempty"`
+	// Backend: id of the backend the host routes to (Host.AddPath(backend, ...), which also adds the
+	// backend path); "" = a path without backend. The converters re-create a host together with
+	// the backends it routes to and the other way round: so does Apply.
+	Backend string `json:"backend,omitempty"`
+	Path    string `json:"path,omitempty"` // "" = "/"; another path leaves "/" to strict-host
+	// AuthTLS: auth-tls-secret, TLS.CAFilename / CAHash set; SyncConfig derives Backend.TLS.HasTLSAuth
+	AuthTLS string `json:"auth_tls,omitempty"` // content version of the CA bundle, "" = none
+	// Passthrough: ssl-passthrough host; SyncConfig derives the frontend layout from it
+	Passthrough bool `json:"passthrough,omitempty"`
 }
 
 // Step is one reconciliation.
@@ -90,9 +100,11 @@ type Step struct {
 
 // Input is a whole history; Steps[0] builds the initial configuration.
 type Input struct {
-	Shards int    `json:"shards,omitempty"`
-	SortBy string `json:"sort_by,omitempty"`
-	Steps  []Step `json:"steps"`
+	Shards int `json:"shards,omitempty"`
+	// StrictHost: global strict-host; SyncConfig adds a "/" path to hosts that have none
+	StrictHost bool   `json:"strict_host,omitempty"`
+	SortBy     string `json:"sort_by,omitempty"`
+	Steps      []Step `json:"steps"`
 }
 
 // ---------------------------------------------------------------- observations
@@ -236,18 +248,19 @@ func (m *metrics) IncCertSigningOutdated(domains string, success bool)      {}
 
 // World is one running instance + fake.
 type World struct {
-	Dir     string
-	Inst    haproxy.Instance
-	Fake    *fakehaproxy.Fake
-	socks   *fakehaproxy.Sockets
-	met     *metrics
-	backs   map[string]BackSpec
-	hosts   map[string]HostSpec
-	maxconn int
-	defBack string // desired default backend id
-	defLast string // default backend id at the last commit
-	nstep   int
-	dumper  spew.ConfigState
+	Dir        string
+	Inst       haproxy.Instance
+	Fake       *fakehaproxy.Fake
+	socks      *fakehaproxy.Sockets
+	met        *metrics
+	backs      map[string]BackSpec
+	hosts      map[string]HostSpec
+	maxconn    int
+	strictHost bool
+	defBack    string // desired default backend id
+	defLast    string // default backend id at the last commit
+	nstep      int
+	dumper     spew.ConfigState
 }
 
 var worldSeq int
@@ -261,8 +274,8 @@ func NewWorld(dir string, in *Input) (*World, error) {
 		}
 	}
 	worldSeq++
-	w := &World{Dir: dir, met: &metrics{}, backs: map[string]BackSpec{}, hosts: map[string]HostSpec{}}
-	w.dumper = spew.ConfigState{Indent: " ", DisablePointerAddresses: true, DisableCapacities: true, SortKeys: true, MaxDepth: 8}
+	w := &World{Dir: dir, met: &metrics{}, backs: map[string]BackSpec{}, hosts: map[string]HostSpec{}, strictHost: in.StrictHost}
+	w.dumper = spew.ConfigState{Indent: " ", DisablePointerAddresses: true, DisableCapacities: true, DisableMethods: true, SortKeys: true, MaxDepth: 8}
 	w.Fake = fakehaproxy.New(dir)
 	// unix socket paths are limited to ~100 bytes: keep them short
 	admin := filepath.Join(dir, "a.sock")
@@ -303,6 +316,7 @@ func (w *World) initGlobal(cfg haproxy.Config) {
 	g.Bind.HTTPBind = ":80"
 	g.Bind.HTTPSBind = ":443"
 	g.MaxConn = 2000 + w.maxconn
+	g.StrictHost = w.strictHost
 }
 
 // Close releases the sockets.
@@ -331,6 +345,7 @@ func (w *World) buildBackend(cfg haproxy.Config, s *BackSpec) *hatypes.Backend {
 	b.Server.InitialWeight = s.InitW
 	b.Resolver = s.Resolver
 	b.BlueGreen.HeaderName = s.BGHeader
+	b.ModeTCP = s.ModeTCP
 	b.BalanceAlgorithm = s.Balance
 	if s.Mut != "" {
 		Mutate(b, s.Mut)
@@ -359,8 +374,22 @@ func (w *World) buildBackend(cfg haproxy.Config, s *BackSpec) *hatypes.Backend {
 
 func (w *World) buildHost(cfg haproxy.Config, s *HostSpec) *hatypes.Host {
 	h := cfg.Hosts().AcquireHost(s.Name)
-	h.AddPath(nil, "/", hatypes.MatchBegin)
+	path := s.Path
+	if path == "" {
+		path = "/"
+	}
+	// nil when the host has no backend (or it is gone): a path to _error404
+	h.AddPath(cfg.Backends().Items()[s.Backend], path, hatypes.MatchBegin)
 	h.RootRedirect = s.Extra
+	if s.Passthrough {
+		h.SetSSLPassthrough(true)
+	}
+	if s.AuthTLS != "" {
+		p := w.CrtPath("ca-" + s.Name)
+		_ = os.WriteFile(p, []byte(pem(s.AuthTLS)), 0o644)
+		h.TLS.CAFilename = p
+		h.TLS.CAHash = hash(pem(s.AuthTLS))
+	}
 	if s.Crt != "" {
 		p := w.CrtPath(s.Crt)
 		_ = os.WriteFile(p, []byte(pem(s.Content)), 0o644)
@@ -549,6 +578,7 @@ func (w *World) Apply(st *Step) (obs *StepObs) {
 	// a replayed input may list an object twice: the last entry is the desired state
 	st.Hosts = dedupHosts(st.Hosts)
 	st.Backs = dedupBacks(st.Backs)
+	w.expandDirty(st)
 	cfg := w.Inst.Config()
 	first := w.nstep == 0
 	obs.First = first
@@ -786,6 +816,65 @@ func (w *World) Apply(st *Step) (obs *StepObs) {
 		obs.Diff = fakehaproxy.Diff(w.Fake.St, loaded)
 	}
 	return obs
+}
+
+// expandDirty makes a partial step re-create what the converters would: the tracker links an
+// ingress to its hosts and backends, so a dirty backend comes with the hosts routing to it and a
+// dirty host with its backend. Objects the step does not list are re-created with their last
+// spec (Hosts().RemoveAll / Backends().RemoveAll, then Acquire* with identical content).
+func (w *World) expandDirty(st *Step) {
+	if st.Full {
+		return
+	}
+	for changed := true; changed; {
+		changed = false
+		backs := map[string]bool{}
+		for _, b := range st.Backs {
+			backs[b.ID()] = true
+		}
+		for _, id := range st.DelBacks {
+			backs[id] = true
+		}
+		hosts := map[string]bool{}
+		for _, h := range st.Hosts {
+			hosts[h.Name] = true
+		}
+		for _, n := range st.DelHosts {
+			hosts[n] = true
+		}
+		// the state the step leads to
+		spec := func(n string) (HostSpec, bool) {
+			for _, h := range st.Hosts {
+				if h.Name == n {
+					return h, true
+				}
+			}
+			h, ok := w.hosts[n]
+			return h, ok
+		}
+		for _, n := range sortedKeys(w.hosts) {
+			h, _ := spec(n)
+			old := w.hosts[n]
+			if !hosts[n] && (backs[h.Backend] || backs[old.Backend]) && h.Backend != "" {
+				st.Hosts = append(st.Hosts, h)
+				hosts[n] = true
+				changed = true
+			}
+		}
+		for _, n := range sortedKeys(hosts) {
+			for _, id := range []string{func() string { h, _ := spec(n); return h.Backend }(), w.hosts[n].Backend} {
+				if id == "" || backs[id] {
+					continue
+				}
+				if b, ok := w.backs[id]; ok {
+					st.Backs = append(st.Backs, b)
+					backs[id] = true
+					changed = true
+				}
+			}
+		}
+	}
+	sort.SliceStable(st.Hosts, func(i, j int) bool { return st.Hosts[i].Name < st.Hosts[j].Name })
 }
 
 // cfgSignature identifies the version of the *.cfg files on disk.
